@@ -660,6 +660,12 @@ void amount_t::in_place_roundto(int places)
   if (! quantity)
     throw_(amount_error, _("Cannot round an uninitialized amount"));
 
+  // 10^places is computed below; no amount has more decimal places than a
+  // precision_t can count
+  if (labs(places) > std::numeric_limits<precision_t>::max())
+    throw_(amount_error,
+           _f("Cannot round to %1% decimal places") % places);
+
   _dup();
 
   mpz_t& scale(temp);
